@@ -5,8 +5,10 @@ import (
 	"encoding/binary"
 	"encoding/hex"
 	"fmt"
+	"google.golang.org/protobuf/proto"
 	"sort"
 	"testing"
+	"time"
 
 	ccpb "github.com/google/go-tdx-guest/proto/checkconfig"
 	"github.com/google/go-tdx-guest/validate"
@@ -286,6 +288,94 @@ func TestC14(t *testing.T) {
 	// Long allow-lists against values at the ends of the byte order: the quote's MR_TD all-ones, all-zero, just above /
 	// below every entry, equal to the first / the last / a middle entry; lists of 1 .. 65 well-formed entries, as drawn,
 	// ascending and descending.
+	// one converted policy serving a history of validations: an allow-list of 3..7 entries, quotes whose MR_TD is this
+	// or that entry of it (or none); every verdict is membership in the list AS WRITTEN, the message is what it was
+	// afterwards, and a second conversion means the same
+	gen.Prop(t, "allow-list-histories-on-one-options-value", gen.N(2500, 150000), func(t *rapid.T) {
+		s := gen.NewStream(rapid.Uint64().Draw(t, "content"), "c14hist")
+		n := rapid.IntRange(3, 7).Draw(t, "entries")
+		list := make([][]byte, n)
+		for k := range list {
+			list[k] = s.Bytes(48)
+		}
+		pf := &gen.PolicyFields{AnyMrTd: list}
+		pol := fieldsToPolicy(pf, false, false)
+		keep := proto.Clone(pol).(*ccpb.Policy)
+		opts, err := validate.PolicyToOptions(pol)
+		if err != nil {
+			gen.Fail(t, gen.Violation{Key: "rejects-wellformed-policy", Oracle: "a policy whose every field is absent or correctly sized converts", Detail: err.Error(), Replay: map[string]any{"kind": "c14-allow-list-history"}})
+			return
+		}
+		want := func(mr []byte) bool {
+			for _, e := range keep.GetTdQuoteBodyPolicy().GetAnyMrTd() {
+				if bytes.Equal(e, mr) {
+					return true
+				}
+			}
+			return false
+		}
+		var hist []string
+		steps := rapid.IntRange(2, 7).Draw(t, "validations")
+		for i := 0; i < steps; i++ {
+			k := rapid.IntRange(-1, n-1).Draw(t, "entry")
+			q := gen.RandomRefQuote(s, 8, 16, 0)
+			binary.LittleEndian.PutUint64(q.Xfam[:], gen.XfamFixed1)
+			binary.LittleEndian.PutUint64(q.TdAttr[:], 0)
+			if k >= 0 {
+				copy(q.MrTd[:], list[k])
+			}
+			o := opts
+			if i > 0 && rapid.IntRange(0, 3).Draw(t, "convertAgain") == 0 {
+				if o, err = validate.PolicyToOptions(pol); err != nil {
+					gen.Fail(t, gen.Violation{Key: "second-conversion-fails", Oracle: "converting a policy message either fails or yields options that mean what the message says", Detail: fmt.Sprintf("after %v: %v", hist, err), Replay: map[string]any{"kind": "c14-allow-list-history"}})
+					return
+				}
+				hist = append(hist, "convert again")
+			}
+			m := q.ToProto()
+			gen.Eval()
+			v := gen.Call(func() error { return validate.TdxQuote(m, o) })
+			hist = append(hist, fmt.Sprintf("MR_TD=entry %d -> %s", k, v.Short()))
+			if v.Panicked() || v.Accepted() != want(q.MrTd[:]) {
+				gen.Fail(t, gen.Violation{Key: fmt.Sprintf("allow-list-history:%s", map[bool]string{true: "accepts-non-member", false: "rejects-member"}[v.Accepted()]), Oracle: "validation under the converted options gives the verdict the message literally describes (MR_TD is a member of any_mr_td), whatever was validated before", Detail: fmt.Sprintf("any_mr_td of %d entries; history %v", n, hist), Replay: map[string]any{"kind": "c14-allow-list-history", "history": hist}})
+				return
+			}
+		}
+		if !proto.Equal(pol, keep) {
+			gen.Fail(t, gen.Violation{Key: "allow-list-history:policy-message-rewritten", Oracle: "validation under the converted options gives the verdict the message literally describes", Detail: fmt.Sprintf("after %v the caller's policy message is another message", hist), Replay: map[string]any{"kind": "c14-allow-list-history", "history": hist}})
+			return
+		}
+		gen.NonTrivial("c14hist", fmt.Sprint(hist), list[0][:8])
+		gen.Class("allow-list-history")
+	})
+	// a refused conversion is refused in the time it takes to read the message: 16000 wrongly sized list entries
+	gen.Direct(t, "many-wrongly-sized-entries-in-bounded-time", func(t *testing.T) {
+		if sh, _ := gen.Shard(); sh != 0 {
+			return
+		}
+		for _, c := range []struct {
+			n, size int
+		}{{16000, 1}, {16000, 47}, {4000, 49}} {
+			list := make([][]byte, c.n)
+			for k := range list {
+				list[k] = bytes.Repeat([]byte{byte(k)}, c.size)
+			}
+			pol := fieldsToPolicy(&gen.PolicyFields{AnyMrTd: list}, false, false)
+			gen.Eval()
+			v, hung := gen.CallWatch(20*time.Second, func() error { _, err := validate.PolicyToOptions(pol); return err })
+			rp := map[string]any{"kind": "c14-many-entries", "entries": c.n, "size": c.size}
+			if hung || v.Panicked() {
+				gen.Fail(t, gen.Violation{Key: "no-answer:many-wrongly-sized-entries", Oracle: "conversion fails whenever a byte-string expectation is non-empty and of the wrong length", Detail: fmt.Sprintf("any_mr_td with %d entries of %d bytes: no answer within 20 s %s", c.n, c.size, v.Panic), Replay: rp})
+				return
+			}
+			if v.Accepted() {
+				gen.Fail(t, gen.Violation{Key: "converts-malformed:many-entries", Oracle: "conversion fails whenever a byte-string expectation is non-empty and of the wrong length", Detail: fmt.Sprintf("any_mr_td with %d entries of %d bytes converted", c.n, c.size), Replay: rp})
+				return
+			}
+			gen.NonTrivial("c14many", c.n, c.size)
+		}
+		gen.Class("many-wrongly-sized-entries")
+	})
 	gen.Direct(t, "long-allow-lists-and-extreme-values", func(t *testing.T) {
 		i := 0
 		for _, n := range []int{1, 2, 15, 16, 17, 18, 32, 33, 64, 65} {
